@@ -180,6 +180,25 @@ def check_case(ctx, case):
         ctx.fail("unbalanced-nesting", observed=prob, expected="balanced BEGIN/END")
         return
     ctx.count("purity-checks")
+    # ---- a VTIMEZONE added after other subcomponents stays where it was inserted (sorted or not)
+    from icalendar import Timezone, TimezoneStandard
+    from datetime import datetime as _dt, timedelta as _td
+    late = build(model)
+    tzc = Timezone()
+    tzc.add("TZID", "Verif/Late")
+    st = TimezoneStandard()
+    st.add("DTSTART", _dt(1970, 1, 1))
+    st.add("TZOFFSETFROM", _td(hours=1))
+    st.add("TZOFFSETTO", _td(hours=1))
+    tzc.add_component(st)
+    pos = rng.randrange(len(late.subcomponents) + 1)
+    late.subcomponents.insert(pos, tzc)
+    want_order = [c.name for c in late.subcomponents]
+    for flag in (True, False):
+        top = name_sequences(lines_of(late.to_ical(sorted=flag)))[0]
+        if top["subs"] != want_order:
+            ctx.fail("subcomponent-order", observed=(f"sorted={flag}", top["subs"]), expected=want_order)
+            return
     # ---- insertion order independence (sorted=True)
     base = build(model).to_ical()
     seqs_base = name_sequences(lines_of(base))
